@@ -60,10 +60,10 @@ theorem strData_wf (c : Cfg) (level : Nat) (s : String) (st : St) (sk nb : Bool)
   rcases strData_cases c level s st with ⟨h1, _⟩ | ⟨⟨r, h1⟩, _, _⟩ <;> rw [h1] <;> simp [Ev.wf, Ev.isBin]
 
 /-- the head of a typed hash: three events, keys at level 2 -/
-theorem head3_spec (c : Cfg) (tn : String) (st : St) (sk nb : Bool) (hk : sk = true → c.dedup ≤ 1) :
-    ∃ k1 v1 k2, (head3 c tn st).1 = [k1, v1, k2] ∧ (!sk || k1.isStr) = true ∧ (!sk || k2.isStr) = true ∧
+theorem head3_spec (c : Cfg) (tl : Nat) (tn : String) (st : St) (sk nb : Bool) (hk : sk = true → c.dedup ≤ 1) :
+    ∃ k1 v1 k2, (head3 c tl tn st).1 = [k1, v1, k2] ∧ (!sk || k1.isStr) = true ∧ (!sk || k2.isStr) = true ∧
       k1.wf sk nb = true ∧ v1.wf sk nb = true ∧ k2.wf sk nb = true ∧
-      (head3 c tn st).2.ref = st.ref + (k1.npos + v1.npos + k2.npos) := by
+      (head3 c tl tn st).2.ref = st.ref + (k1.npos + v1.npos + k2.npos) := by
   refine ⟨_, _, _, rfl, ?_, ?_, strData_wf .., strData_wf .., strData_wf .., ?_⟩
   · cases sk with
     | false => rfl
@@ -72,7 +72,7 @@ theorem head3_spec (c : Cfg) (tn : String) (st : St) (sk nb : Bool) (hk : sk = t
     | false => rfl
     | true => simp [strData_plain c 2 _ _ (by have := hk rfl; omega), Ev.isStr]
   · simp only [head3]
-    rw [strData_npos c 2 "__pvalue", strData_npos c 1 tn, strData_npos c 2 "__ptype"]
+    rw [strData_npos c 2 "__pvalue", strData_npos c tl tn, strData_npos c 2 "__ptype"]
     omega
 
 theorem allStrKeys_cons {k v : V} {es : List (V × V)} (h : allStrKeys ((k, v) :: es) = true) :
@@ -131,8 +131,8 @@ theorem toData_good (c : Cfg) (sk nb : Bool) (hk : sk = true → c.cplx = false 
           · simp only [Ev.npos]; rw [ih.2.2]; simp; omega
         · split
           · apply good_record
-            obtain ⟨k1, v1, k2, h3, hk1, hk2, w1, w2, w3, hn⟩ := head3_spec c "Hash" (bump st) sk nb (fun h => (hk h).2)
-            have ih := flatData_good c sk nb hk hb es (bump (head3 c "Hash" (bump st)).2)
+            obtain ⟨k1, v1, k2, h3, hk1, hk2, w1, w2, w3, hn⟩ := head3_spec c 1 "Hash" (bump st) sk nb (fun h => (hk h).2)
+            have ih := flatData_good c sk nb hk hb es (bump (head3 c 1 "Hash" (bump st)).2)
             refine ⟨?_, ?_⟩
             · simp only [h3, Ev.wf, List.cons_append, List.nil_append, hkeys, wfList, w1, w2, w3, ih.1, hk1, hk2, Bool.and_true]
             · simp only [h3, Ev.npos, List.cons_append, List.nil_append, nposList]
@@ -157,8 +157,8 @@ theorem toData_good (c : Cfg) (sk nb : Bool) (hk : sk = true → c.cplx = false 
       · simp [Good, Ev.wf, Ev.npos]
       · split
         · apply good_record
-          obtain ⟨k1, v1, k2, h3, hk1, hk2, w1, w2, w3, hn⟩ := head3_spec c "Sensitive" (bump st) sk nb (fun h => (hk h).2)
-          have ih := toData_good c sk nb hk hb 1 v (head3 c "Sensitive" (bump st)).2
+          obtain ⟨k1, v1, k2, h3, hk1, hk2, w1, w2, w3, hn⟩ := head3_spec c 1 "Sensitive" (bump st) sk nb (fun h => (hk h).2)
+          have ih := toData_good c sk nb hk hb 1 v (head3 c 1 "Sensitive" (bump st)).2
           refine ⟨?_, ?_⟩
           · simp only [h3, Ev.wf, List.cons_append, List.nil_append, hkeys, wfList, w1, w2, w3, ih.1, hk1, hk2, Bool.and_true]
           · simp only [h3, Ev.npos, List.cons_append, List.nil_append, nposList]
@@ -178,8 +178,8 @@ theorem toData_good (c : Cfg) (sk nb : Bool) (hk : sk = true → c.cplx = false 
           simp [Good, Ev.wf, Ev.npos, this]
         · split
           · apply good_record
-            obtain ⟨k1, v1, k2, h3, hk1, hk2, w1, w2, w3, hn⟩ := head3_spec c "Binary" (bump st) sk nb (fun h => (hk h).2)
-            have ih := good_strData c 1 (b64 bs) (head3 c "Binary" (bump st)).2 sk nb
+            obtain ⟨k1, v1, k2, h3, hk1, hk2, w1, w2, w3, hn⟩ := head3_spec c 1 "Binary" (bump st) sk nb (fun h => (hk h).2)
+            have ih := good_strData c 1 (b64 bs) (head3 c 1 "Binary" (bump st)).2 sk nb
             refine ⟨?_, ?_⟩
             · simp only [h3, Ev.wf, List.cons_append, List.nil_append, hkeys, wfList, w1, w2, w3, ih.1, hk1, hk2, Bool.and_true]
             · simp only [h3, Ev.npos, List.cons_append, List.nil_append, nposList]
@@ -191,8 +191,8 @@ theorem toData_good (c : Cfg) (sk nb : Bool) (hk : sk = true → c.cplx = false 
       · split
         · simp [Good, Ev.wf, Ev.npos]
         · apply good_record
-          obtain ⟨k1, v1, k2, h3, hk1, hk2, w1, w2, w3, hn⟩ := head3_spec c k.typeName (bump st) sk nb (fun h => (hk h).2)
-          have ih := good_strData c 1 enc (head3 c k.typeName (bump st)).2 sk nb
+          obtain ⟨k1, v1, k2, h3, hk1, hk2, w1, w2, w3, hn⟩ := head3_spec c k.typeLevel k.typeName (bump st) sk nb (fun h => (hk h).2)
+          have ih := good_strData c 1 enc (head3 c k.typeLevel k.typeName (bump st)).2 sk nb
           refine ⟨?_, ?_⟩
           · simp only [h3, Ev.wf, List.cons_append, List.nil_append, hkeys, wfList, w1, w2, w3, ih.1, hk1, hk2, Bool.and_true]
           · simp only [h3, Ev.npos, List.cons_append, List.nil_append, nposList]
